@@ -1,4 +1,42 @@
-import Blf.UFile
-/-! # C12 (boundedness theorem under construction) -/
+import Blf.PipeBound
+/-!
+# C12 — Buffered data stays bounded no matter how long the file is
+
+Proved on the pipeline models, for every number of containers and every interleaving (so for every way in which the
+application stalls and the workers burst):
+* read session, before `close()`: bytes appended beyond the parser's position ≤ `max bufferSize R + C` (`R` = largest
+  stream read = largest object, `C` = largest container), queued objects ≤ queue capacity;
+* write session: bytes written beyond the compressor's position ≤ `max bufferSize cs + S` (`S` = largest encoded object),
+  queued objects ≤ queue capacity;
+* `dropOldData` leaves at most the containers from the one holding the get position on, so the bytes *held* are at most
+  what is buffered ahead plus one container.
+
+Measured, not proved: the allocator-level peak (harness allocation counter, as a function of the number of containers) —
+the models count stream bytes and queue entries, not `malloc` overhead, `std::vector` growth or zlib's work buffers.
+-/
 namespace Blf.Props
+open Blf
+
+theorem C12_read_session_bounded (bufU : Int) (capQ : Nat) (hc : 0 < capQ) (conts : List Nat) (prog : List Pipe.POp) (R C : Nat)
+    (hs : (Pipe.qwrites prog).length < Queue.U32MAX) (hcC : ∀ c ∈ conts, c ≤ C) (hp : PipeBound.readsLe R prog)
+    (hsum : (PipeBound.lsum conts : Int) ≤ UFile.I64MAX) (s : Pipe.Sys) (h : Pipe.Reach bufU capQ conts prog s)
+    (hopen : s.stopReq = false) :
+    s.u.tellp - s.u.tellg ≤ max bufU R + C ∧ s.q.queue.length ≤ capQ :=
+  PipeBound.read_buffered_bounded bufU capQ hc conts prog R C hs hcC hp hsum s h hopen
+
+theorem C12_write_session_bounded (sz : Nat → Nat) (S : Nat) (hS : ∀ x, sz x ≤ S) (bufU : Int) (capQ : Nat) (hc : 0 < capQ)
+    (cs : Nat) (hcs : 0 < cs) (objs : List Nat) (hs : objs.length < Queue.U32MAX)
+    (hb : (WPipe.total sz objs : Int) + cs < UFile.I64MAX) (s : WPipe.Sys) (h : WPipe.Reach sz bufU capQ cs objs s) :
+    s.u.tellp - s.u.tellg ≤ max bufU cs + S ∧ s.q.queue.length ≤ capQ :=
+  PipeBound.write_buffered_bounded sz S hS bufU capQ hc cs hcs objs hs hb s h
+
+theorem C12_drop_leaves_one_container (s : UFile.State) (hgp : s.tellg ≤ s.tellp) (hpf : s.tellp ≤ s.fileSize) :
+    (UFile.dropOldData s).data = [] ∨
+    ∃ c r, (UFile.dropOldData s).data = c :: r ∧ s.tellg < (c.size : Int) + c.pos :=
+  PipeBound.drop_resident s hgp hpf
+
+/-- non-vacuity: 1000 containers of 8 bytes through a buffer of 4: a reachable state exists at all (the initial one) and
+    the bound `max 4 3 + 8 = 12` does not mention 1000 -/
+example : ∃ s, Pipe.Reach 4 1 (List.replicate 1000 8) [.uread 3] s ∧ s.stopReq = false := ⟨_, Pipe.Reach.init, rfl⟩
+
 end Blf.Props
